@@ -1,5 +1,6 @@
 import DmrVerif.Driver.Loop
+import DmrVerif.Driver.Purity
 
-/-! model driver for property C19 (stub: no operations registered yet) -/
+/-! model driver for property C19 (stateful: the hidden state is threaded through the lines) -/
 
-def main : IO Unit := Dmr.Driver.runMain []
+def main : IO Unit := Dmr.Driver.runMainS Dmr.Driver.Purity.stepLine Dmr.Purity.init
